@@ -24,6 +24,12 @@ type corpus struct {
 	Runner  string
 }
 
+// scratchModG: the module of Engine G's corpus says go 1.22 (loop variables
+// per iteration); three quarters of the programs pin their file - and with it
+// the generated file - to an older release (prog.Program.GoTag), where loop
+// variables are shared by all iterations.
+var scratchModG = strings.Replace(scratchMod, "\ngo 1.19\n", "\ngo 1.22\n", 1)
+
 var scratchMod = strings.NewReplacer("/repo", vc.RepoDir, "/verif/g", filepath.Join(vc.VerifDir, "g")).Replace(scratchModT)
 
 const scratchModT = `module scratch
@@ -56,7 +62,7 @@ func writeCorpus(work string, progs []*prog.Program) *corpus {
 	dir := filepath.Join(work, "scratch")
 	c := &corpus{Dir: dir, Progs: progs, Dropped: map[string]string{}}
 	must(os.MkdirAll(dir, 0o755))
-	must(os.WriteFile(filepath.Join(dir, "go.mod"), []byte(scratchMod), 0o644))
+	must(os.WriteFile(filepath.Join(dir, "go.mod"), []byte(scratchModG), 0o644))
 	sum, _ := os.ReadFile(filepath.Join(vc.RepoDir, "go.sum"))
 	must(os.WriteFile(filepath.Join(dir, "go.sum"), sum, 0o644))
 	for _, p := range progs {
